@@ -6,6 +6,7 @@ package main
 import (
 	"context"
 	"fmt"
+	"strings"
 	"sync"
 )
 
@@ -115,4 +116,30 @@ func splitFields(s string) []string {
 		out = append(out, cur)
 	}
 	return out
+}
+
+func init() {
+	// C10: "future-cancel on a completed future returns false and changes nothing" — nothing includes the futures
+	// the completed body started, which run under a context derived from the body's
+	addWitness("cancel-finished-future-changes-nothing", "f", func(iters int) string {
+		w, err := newConcWorld()
+		if err != nil {
+			return "setup-error"
+		}
+		bg := context.Background()
+		obs := ""
+		if !within(10*concWatchdog, func() {
+			obs = w.evalObs(bg, `(do (def outer (future (future (do (sleep 150) 42))))
+			                         (def inner (deref outer))
+			                         (let [c (future-cancel outer)]
+			                           [c (future-cancelled? outer) (future-done? outer) (deref inner) (deref outer) (future-cancelled? inner)]))`)
+		}) {
+			return "BLOCKED\t!cancel of a finished future: the evaluation never returns"
+		}
+		// (deref outer) is the inner future object itself: compare the scalar parts only
+		if !strings.HasPrefix(obs, "ok ( V F F T I42 ") || !strings.HasSuffix(obs, " F )") {
+			return obs + "\t!future-cancel on a completed future changed something (expected [false false true 42 <future> false])"
+		}
+		return "ok"
+	})
 }
